@@ -190,6 +190,15 @@ pub fn run_scenario(sb: &mut Sandbox, gens: &[Gen], sc: &Scenario) -> Eval {
             write_set(&work.join(".bins.staging-2-00000000000000bb.old"), &half);
         }
     }
+    // I-lastcopy (multi-run histories of exact publishes): the set that was last live at the output path
+    // is never destroyed while no complete set is live there - whatever an earlier failed run left as the
+    // only surviving copy, a later run must not sweep away
+    let exact_history = sc.runs.len() > 1 && sc.runs.iter().all(|r| r.action != "generate");
+    let is_generation = |s: &BTreeMap<String, u64>| gens.iter().any(|g| g.hashes == *s);
+    let mut last_live: Option<BTreeMap<String, u64>> = match out_state(&output) {
+        Prev::Set(s) if is_generation(&s) => Some(s),
+        _ => None,
+    };
     let mut all_runs: Vec<PublishRun> = sc.runs.clone();
     if let Some(g) = sc.final_gen {
         all_runs.push(PublishRun { new_gen: g, plan: vec![], action: "commit".into() });
@@ -212,6 +221,16 @@ pub fn run_scenario(sb: &mut Sandbox, gens: &[Gen], sc: &Scenario) -> Eval {
             ChildSpec {
                 action: "generate".into(),
                 args: args_of(&[("output", json!(output.to_string_lossy())), ("include_prover", json!(true)), ("n", json!(new.n)), ("m", json!(new.m))]),
+                plan: run.plan.clone(),
+                ..Default::default()
+            }
+        } else if run.action == "stage_and_commit" {
+            // the set to publish waits outside the output's parent directory
+            let source = fs.join(format!("src-{ri}"));
+            write_set(&source, &new.files);
+            ChildSpec {
+                action: "stage_and_commit".into(),
+                args: args_of(&[("source", json!(source.to_string_lossy())), ("output", json!(output.to_string_lossy()))]),
                 plan: run.plan.clone(),
                 ..Default::default()
             }
@@ -282,6 +301,19 @@ pub fn run_scenario(sb: &mut Sandbox, gens: &[Gen], sc: &Scenario) -> Eval {
                 ev.findings.push(("publish:lost-copy".into(), format!("{tag}: the previous set is no longer at the output path, the new set is not there either, and previous/new copies surviving elsewhere = {prev_survives}/{new_survives}")));
             } else {
                 ev.probes.inc("output_absent_both_copies_survive");
+            }
+        }
+        if exact_history {
+            match &now_state {
+                Prev::Set(s) if is_generation(s) => last_live = Some(s.clone()),
+                _ => {
+                    if let Some(ll) = &last_live {
+                        let survives = after.iter().filter(|n| n.as_str() != "bins").any(|n| read_set(&work.join(n.as_str())).map(|s| s == *ll).unwrap_or(false));
+                        if !survives {
+                            ev.findings.push(("publish:last-live-set-destroyed".into(), format!("{tag}: no complete set is live at the output path and the set that was last live there no longer exists anywhere next to it")));
+                        }
+                    }
+                }
             }
         }
         match kind.as_str() {
@@ -381,7 +413,10 @@ pub fn random_history(gens: &[Gen], rng: &mut Rng, typical_calls: u64) -> Scenar
             }
         }
         plan.sort_by_key(|f| f.call);
-        runs.push(PublishRun { new_gen: g, plan, action: "commit".into() });
+        // half of the runs publish a pre-staged set, half go through the builder's own staging-directory
+        // creation first (the routine that meets the debris of earlier runs)
+        let action = if rng.chance(1, 2) { "commit" } else { "stage_and_commit" };
+        runs.push(PublishRun { new_gen: g, plan, action: action.into() });
     }
     let mut fg = rng.usize(gens.len());
     if fg == last {
